@@ -1,6 +1,8 @@
 """C12 - time normalisation, overridden-clock comparison and marshalling are exact."""
 import datetime
 import math
+import re
+import time
 import zoneinfo
 from fractions import Fraction
 
@@ -23,7 +25,13 @@ RULE = ('(override instant, datetime, representation, seconds) tuples: instants 
         'through normalize_time and the three comparisons under a fixed override; earlier calls are repeated unchanged, '
         'on the other fold reading, with other seconds, or after the clock moved - the oracle computes every expected '
         'result from that call\'s arguments and the override cell alone; a failure is confirmed and shrunk in a fresh '
-        'interpreter (if it depends on an earlier case, that case is put in front: kind "multi"). A case is non-trivial when an override-dependent call '
+        'interpreter within a 60 s wall-clock budget (if it depends on an earlier case, that case is put in front: kind '
+        '"multi"). Zone transitions: around every offset change 1990..2037 of the named zones, wall times inside the '
+        'repeated interval (either fold), inside the gap (readings that do not exist, either fold) and next to them, '
+        'with the override within two hours of the transition (inside the overlap / skipped hour included) and the '
+        'compared instant at the datetime\'s own instant, the transition, the other pass of the same reading, +-1 us, '
+        'for all three comparisons. Marshalling: the same marshalled dict is unmarshalled 1-3 times, must be left as it '
+        'was (snapshot before/after, also when unmarshall_time raises) and is re-marshalled. A case is non-trivial when an override-dependent call '
         'returned a value (datetime, timestamp, bool) or normalize/marshall/unmarshall returned one, on both sides; '
         'distinct by the canonical JSON of the case')
 TRUSTED_BASE = [
@@ -42,6 +50,8 @@ UNMODELLED = [
     'the list form of the override (set_time_override([...])), aware override instants, set_time_override() with no argument',
     'reads of the real clock (no override): only "the real clock was read" is recorded',
     'marshalled records with missing keys or non-integer values; tzinfo objects whose utcoffset() is None',
+    'absence of hidden state / argument mutation is not a theorem (the model is a pure function): it is what the '
+    'repeated-call and same-dict-twice correspondence cases check',
 ]
 ASSUMPTIONS = [
     'the override instant is a naive datetime (as TimeFixture and the documentation use it)',
@@ -338,9 +348,10 @@ _FOLDS = {}
 CALLS_WITH_DT = ('norm', 'older', 'newer', 'soon')
 
 
-def fold_transitions(key):
-    """[(T, shift)]: UTC instants T (1990..2037) at which the zone's offset drops by `shift` us;
-    the wall-clock readings of [T - shift, T) are repeated by [T, T + shift)"""
+def zone_transitions(key):
+    """[(T, before, after)]: UTC instants T (1990..2037) at which the zone's offset changes from `before` to
+    `after` us.  after < before: the wall readings of [T - shift, T) are repeated by [T, T + shift) (overlap,
+    told apart by `fold`); after > before: the wall readings [T + before, T + after) do not exist (gap)."""
     if key in _FOLDS:
         return _FOLDS[key]
     z = zoneinfo.ZoneInfo(key)
@@ -353,7 +364,7 @@ def fold_transitions(key):
     while u < end:
         nxt = u + DAY_US
         o = off(nxt)
-        if o < prev:
+        if o != prev:
             lo, hi = u, nxt
             while hi - lo > 10 ** 6:
                 mid = (lo + hi) // 2 // 10 ** 6 * 10 ** 6
@@ -362,10 +373,15 @@ def fold_transitions(key):
                 else:
                     hi = mid
             if off(hi - 1) == prev and off(hi) == o:
-                out.append((hi, prev - o))
+                out.append((hi, prev, o))
         prev, u = o, nxt
     _FOLDS[key] = out
     return out
+
+
+def fold_transitions(key):
+    """[(T, shift)]: the offset decreases (overlaps) among zone_transitions"""
+    return [(T, b - a) for T, b, a in zone_transitions(key) if a < b]
 
 
 def dst_zones():
@@ -440,6 +456,69 @@ def gen_foldseq(ctx):
             ops.append(list(ops[-1]))                                 # the very same call again
     ctx.count('fold/' + what + '/fold%d-first' % first)
     return {'kind': 'seq', 'init': now, 'ops': ops, 'fixture': rng.random() < 0.1}
+
+
+def sec_for(dist):
+    """a seconds argument whose timedelta is `dist` us if that can be said exactly, else the whole seconds below"""
+    if dist % 10 ** 6 == 0:
+        return ['int', dist // 10 ** 6]
+    sec = ['float', (dist / 1e6).hex()]
+    if sec_us(sec) == dist and float_ok(sec_value(sec)):
+        return sec
+    return ['int', dist // 10 ** 6]
+
+
+def gen_transition_seq(ctx):
+    """Around one offset change of a named zone (gap or overlap): the datetime is a wall time inside the repeated
+    interval (either fold), inside the gap (a reading that does not exist, either fold) or next to the interval; the
+    override instant lies within two hours of the transition (inside the overlap / the skipped hour included); the
+    seconds are chosen so that the instant the datetime is compared with (now - s, now + s) is the datetime's own
+    instant, the transition, the other pass of the same wall reading, or any instant nearby, +-1 us."""
+    rng = ctx.rng
+    zs = [z for z in ZONES if zone_transitions(z)]
+    if not zs:
+        return gen_seq(ctx, True)
+    key = rng.choice(zs)
+    T, ob, oa = rng.choice(zone_transitions(key))
+    shift = abs(oa - ob)
+    hour2 = 2 * 3600 * 10 ** 6
+    ops = []
+    now = init = T + rng.choice([0, -1, 1, rng.randrange(-shift, shift + 1), rng.randrange(-hour2, hour2)])
+    for _ in range(rng.randrange(1, 5)):
+        # the wall reading
+        lo = T + min(ob, oa)                      # first reading of the repeated / skipped interval
+        pos = rng.choice([0, shift - 1, rng.randrange(shift), rng.randrange(shift) // 10 ** 6 * 10 ** 6,
+                          -1, shift, rng.randrange(-hour2, hour2)])
+        loc = lo + pos
+        fold = rng.randrange(2)
+        spec = {'us': loc, 'tz': ['zone', key, fold]}
+        inside = 0 <= pos < shift
+        if inside:          # PEP 495: fold=0 reads the interval with the offset before the change, fold=1 after it
+            spec['utc'] = loc - (ob if fold == 0 else oa)
+            kind = ('overlap' if oa < ob else 'gap') + '/fold%d' % fold
+        else:
+            kind = 'near-' + ('overlap' if oa < ob else 'gap')
+        u = spec_utc(spec)
+        if inside and loc - off_us(build_dt(spec)) != u:      # the tz database disagrees with the construction
+            ctx.count('transition/skipped-construction-mismatch')
+            continue
+        what = rng.choice(['norm', 'older', 'newer', 'soon', 'soon'])
+        if what == 'norm':
+            ops.append(['norm', spec])
+        else:
+            # X: the instant the datetime's instant is compared with
+            X = rng.choice([u, u, T, u + (oa - ob), u - (oa - ob), T + rng.randrange(-hour2, hour2),
+                            u + rng.randrange(-shift, shift + 1)]) + rng.choice([-1, 0, 0, 1])
+            sec = sec_for(now - X if what == 'older' else X - now)
+            iso = 1 if what != 'soon' and rng.random() < 0.15 and off_us(build_dt(spec)) % (60 * 10 ** 6) == 0 else 0
+            ops.append([what, spec, sec, iso])
+        ctx.count('transition/' + kind + '/' + what)
+        if rng.random() < 0.25:
+            now = T + rng.randrange(-hour2, hour2)
+            ops.append(['set', now])
+    if not ops:
+        return gen_seq(ctx, True)
+    return {'kind': 'seq', 'init': init, 'ops': ops, 'fixture': rng.random() < 0.1}
 
 
 def twin(spec):
@@ -541,7 +620,7 @@ def gen_marshall(ctx):
     else:
         tz = ['named', 0, 'UTC']
     return {'kind': 'marshall', 'dt': {'us': u, 'tz': tz}, 'leap': rng.random() < 0.4,
-            'via_override': tz is None and rng.random() < 0.3}
+            'via_override': tz is None and rng.random() < 0.3, 'times': rng.choice([1, 2, 2, 3])}
 
 
 def gen_unmarshall(ctx):
@@ -551,14 +630,16 @@ def gen_unmarshall(ctx):
         f[5] = rng.choice([59, 60, 61, 62, 1000])
     k = rng.randrange(4)
     tz = 'absent' if k == 0 else ('none' if k == 1 else rng.choice(ZONE_KEYS))
-    return {'kind': 'unmarshall', 'fields': f, 'tzname': tz}
+    return {'kind': 'unmarshall', 'fields': f, 'tzname': tz, 'times': rng.choice([2, 2, 3])}
 
 
 def gen_case(ctx):
     rng = ctx.rng
     k = rng.randrange(100)
-    if k < 8:
+    if k < 7:
         return gen_foldseq(ctx)
+    if k < 16:
+        return gen_transition_seq(ctx)
     if k < 45:
         now = gen_now_for_boundary(ctx)
         return {'kind': 'seq', 'init': now, 'ops': [gen_cmp(ctx, now)], 'fixture': False}
@@ -616,11 +697,34 @@ def corpus():
                 sec = ['int', 60] if fn == 'older' else ['int', 1 + shift // (2 * 10 ** 6)]
                 out.append({'kind': 'seq', 'init': now0, 'fixture': False,
                             'ops': [[fn, a, sec, 0], [fn, b, sec, 0], [fn, a, sec, 0]]})
+    for key in [z for z in ZONES if zone_transitions(z)]:
+        for want_gap in (False, True):
+            tr = [t for t in zone_transitions(key) if (t[2] > t[1]) == want_gap]
+            if not tr:
+                continue
+            T, ob, oa = tr[-1]
+            shift = abs(oa - ob)
+            loc = T + min(ob, oa) + shift // 4            # a quarter into the repeated / skipped interval
+            for fold in (0, 1):
+                spec = {'us': loc, 'tz': ['zone', key, fold], 'utc': loc - (ob if fold == 0 else oa)}
+                u = spec['utc']
+                ops = [['norm', spec]]
+                for X in (u, T, u + (oa - ob), u - (oa - ob), T + shift // 2, T - shift // 2):
+                    now = T + shift // 3                      # the override itself lies inside the interval
+                    ops += [['soon', spec, sec_for(X - now), 0], ['newer', spec, sec_for(X - now), 0],
+                            ['older', spec, sec_for(now - X), 0]]
+                out.append({'kind': 'seq', 'init': T + shift // 3, 'fixture': False, 'ops': ops})
     out.append({'kind': 'norm', 'dt': {'us': MAX_US, 'tz': ['fixed', -3600 * 10 ** 6]}})
     out.append({'kind': 'norm', 'dt': {'us': 0, 'tz': ['fixed', 3600 * 10 ** 6]}})
-    out.append({'kind': 'marshall', 'dt': {'us': now + 123456, 'tz': ['named', 0, 'UTC+00:00']}, 'leap': True,
-                'via_override': False})
-    out.append({'kind': 'marshall', 'dt': {'us': now + 999999, 'tz': None}, 'leap': True, 'via_override': True})
+    for tz in (None, ['utc'], ['named', 0, 'UTC+00:00'], ['zone', 'UTC', 0], ['fixed', 0]):
+        for leap in (False, True):
+            out.append({'kind': 'marshall', 'dt': {'us': now + 123456, 'tz': tz}, 'leap': leap,
+                        'via_override': False, 'times': 3})
+    out.append({'kind': 'marshall', 'dt': {'us': now + 999999, 'tz': None}, 'leap': True, 'via_override': True,
+                'times': 2})
+    for tzn in ('absent', 'none', 'UTC', 'UTC+00:00', 'Nope/Zone', ''):
+        for sec in (5, 60):
+            out.append({'kind': 'unmarshall', 'fields': [2016, 12, 31, 23, 59, sec, 999999], 'tzname': tzn, 'times': 3})
     return out
 
 
@@ -816,11 +920,43 @@ def run_impl(case):
             out.append('extra:' + ','.join(extra))
         if case.get('leap'):
             m = dict(m, second=60)
-        out.append(unmarshall_impl(m))
+        outs, status, first = unmarshall_many(m, case.get('times', 2))
+        out += outs + [status]
+        # marshall the first result again
+        try:
+            m2 = timeutils.marshall_now(first) if isinstance(first, DT) else None
+        except Exception as e:
+            m2 = None
+            out.append('re:err:' + type(e).__name__)
+        else:
+            out.append('re:-' if m2 is None else
+                       're:' + fields_str([m2[k] for k in FIELD_KEYS]) + '\t' + tz_entry(m2.get('tzname', absent), absent))
         return out
     if kind == 'unmarshall':
-        return [unmarshall_impl(record_of(case))]
+        outs, status, _ = unmarshall_many(record_of(case), case.get('times', 2))
+        return outs + [status]
     raise ValueError(kind)
+
+
+FIELD_KEYS = ('year', 'month', 'day', 'hour', 'minute', 'second', 'microsecond')
+
+
+def snapshot(m):
+    return sorted((repr(k), repr(v)) for k, v in m.items())
+
+
+def unmarshall_many(m, times):
+    """unmarshall_time on the very same dict object `times` times: the canonical outcomes, whether the dict was
+    left as it was, and the first result"""
+    before = snapshot(m)
+    outs, first = [], None
+    for i in range(times):
+        o, r = unmarshall_obj(m)
+        outs.append(o)
+        if i == 0:
+            first = r
+    after = snapshot(m)
+    return outs, 'arg:unchanged' if after == before else 'arg:changed-to:' + repr(m), first
 
 
 def record_of(case):
@@ -833,19 +969,19 @@ def record_of(case):
     return m
 
 
-def unmarshall_impl(m):
+def unmarshall_obj(m):
     from oslo_utils import timeutils
     try:
         r = timeutils.unmarshall_time(m)
     except Exception as e:
-        return 'err:' + type(e).__name__
+        return 'err:' + type(e).__name__, None
     if not isinstance(r, DT):
-        return 'other:' + repr(r)
+        return 'other:' + repr(r), None
     if r.tzinfo is None:
         tz = 'naive'
     else:
         tz = 'name:' + common.hexs(getattr(r.tzinfo, 'key', None) or ('?' + repr(r.tzinfo)))
-    return 'ok\t' + fields_str(dt_fields(r)) + '\t' + tz
+    return 'ok\t' + fields_str(dt_fields(r)) + '\t' + tz, r
 
 
 def unmarshall_req(m):
@@ -914,13 +1050,30 @@ def compare(case, impl, replies):
         ok = len(mo) == len(io) and all(same_out(a, b) for a, b in zip(io, mo)) and parts[1] == impl[1]
         return ok, [';'.join(mo), parts[1]]
     if kind == 'marshall':
-        return replies[0] == '\t'.join(impl), replies
+        # model reply: fields, tz entry, unmarshall outcome (1 or 3 fields), re-marshalled record.  The model is a
+        # function of the record: every further unmarshall of the same dict gives the same outcome, the dict is a
+        # value (unchanged), and re-marshalling is compared where the result's tzname(None) is its key (naive, UTC)
+        parts = replies[0].split('\t')
+        if len(parts) < 4:
+            return False, replies
+        k = 5 if parts[2] == 'ok' else 3
+        unm, re_m = '\t'.join(parts[2:k]), '\t'.join(parts[k:])
+        times = case.get('times', 2)
+        if not (unm.startswith('err:') or unm.endswith('\tnaive') or unm.endswith('\tname:' + common.hexs('UTC'))):
+            re_m = impl[-1]
+        model = parts[:2] + [unm] * times + ['arg:unchanged', re_m]
+        return model == impl, model
+    if kind == 'unmarshall':
+        model = replies * case.get('times', 2) + ['arg:unchanged']
+        return model == impl, model
     return replies == impl, replies
 
 
 def is_nontrivial(case, impl):
     if case['kind'] == 'seq':
         return any(o.startswith(('dt:', 'int:', 'float:', 'bool:')) for o in impl[0].split(';'))
+    if case['kind'] in ('marshall', 'unmarshall'):
+        return any(o.startswith('ok') for o in impl)
     return impl[-1].startswith('ok')
 
 
@@ -941,7 +1094,8 @@ def correspondence(ctx):
         ctx.evaluations += 1
         ctx.count('corr/' + ('corpus' if i < ncorpus else c['kind'] + ('/fixture' if c.get('fixture') else '')))
         impl = run_impl(c)
-        for o in (impl[0].split(';') if c['kind'] == 'seq' else impl[-1:]):
+        for o in (impl[0].split(';') if c['kind'] == 'seq' else
+                  impl[-1:] if c['kind'] not in ('marshall', 'unmarshall') else impl[-3:-2]):
             ctx.count('out/' + o.split(':')[0].split('\t')[0])
         if is_nontrivial(c, impl):
             ctx.nontrivial(common.json.dumps(c, sort_keys=True))
@@ -1099,13 +1253,21 @@ def is_utc_spec(tz):
                                or (tz[0] == 'zone' and tz[1] == 'UTC'))
 
 
+def same_dt(a, b):
+    """same datetime value: fields, awareness and offset (no inter-zone ==, see oracle_iso)"""
+    return dt_fields(a) == dt_fields(b) and off_us(a) == off_us(b)
+
+
 def oracle_marshall(case):
-    """unmarshall_time inverts marshall_now for naive and UTC datetimes; leap second capped; microsecond kept"""
+    """unmarshall_time inverts marshall_now for naive and UTC datetimes - every time it is asked, not only the first:
+    the same marshalled dict unmarshalled `times` times, left as it was, and re-marshalled to itself; leap second
+    capped; microsecond kept"""
     from oslo_utils import timeutils
     tz = case['dt'].get('tz')
     if tz is not None and not is_utc_spec(tz):
         return None                               # outside the property
     d = build_dt(case['dt'])
+    leap = ' with second=60' if case.get('leap') else ''
     timeutils.clear_time_override()
     try:
         if case.get('via_override'):
@@ -1114,44 +1276,70 @@ def oracle_marshall(case):
         else:
             m = timeutils.marshall_now(d)
         want = dt_fields(d)
-        if [m.get(k) for k in ('year', 'month', 'day', 'hour', 'minute', 'second', 'microsecond')] != want:
+        if [m.get(k) for k in FIELD_KEYS] != want:
             return 'marshall_now(%r) = %r: fields differ' % (d, m)
+        m0 = dict(m)
         if case.get('leap'):
             m = dict(m, second=60)
             want = want[:5] + [59] + want[6:]
-        r = timeutils.unmarshall_time(m)
+        before, shown = snapshot(m), repr(m)
+        results, changed = [], None
+        for i in range(case.get('times', 2)):
+            results.append(timeutils.unmarshall_time(m))
+            if changed is None and snapshot(m) != before:
+                changed = 'unmarshall_time changed the dict it was given: %s became %r (call %d)' % (shown, dict(m), i + 1)
+        again = timeutils.marshall_now(results[0])
     except Exception as e:
-        return 'marshalling %r%s raised %s: %s' % (d, ' with second=60' if case.get('leap') else '', type(e).__name__, e)
+        return 'marshalling %r%s raised %s: %s' % (d, leap, type(e).__name__, e)
     finally:
         timeutils.clear_time_override()
-    if dt_fields(r) != want:
-        return 'unmarshall_time(%r) = %r: fields differ from %r' % (m, r, want)
-    if tz is None:
-        if r.tzinfo is not None:
-            return 'unmarshall_time(marshall_now(naive %r)) is aware: %r' % (d, r)
-    else:
-        if r.tzinfo is None or off_us(r) != 0:
-            return 'unmarshall_time(marshall_now(UTC %r)) = %r is not a UTC datetime' % (d, r)
-        if not case.get('leap') and r != d:
-            return 'unmarshall_time(marshall_now(%r)) = %r' % (d, r)
+    for i, r in enumerate(results):
+        nth = 'call %d of unmarshall_time(%s)' % (i + 1, shown)
+        if dt_fields(r) != want:
+            return '%s = %r: fields differ from %r' % (nth, r, want)
+        if tz is None:
+            if r.tzinfo is not None:
+                return '%s for a naive %r is aware: %r' % (nth, d, r)
+        else:
+            if r.tzinfo is None or off_us(r) != 0:
+                return '%s = %r is not a UTC datetime (marshalled from %r)' % (nth, r, d)
+            if not case.get('leap') and r != d:
+                return '%s = %r, not %r' % (nth, r, d)
+        if not same_dt(r, results[0]):
+            return '%s = %r but the first call returned %r' % (nth, r, results[0])
+    if changed:
+        return changed
+    if not case.get('leap') and snapshot(again) != snapshot(m0):
+        return 'marshall_now(unmarshall_time(m)) = %r is not m = %r' % (again, m0)
     return None
 
 
 def oracle_unmarshall(case):
-    """second above 59 behaves like 59; valid naive records come back field for field"""
+    """any record: the dict is left as it was and a second call on it behaves like the first (whether it returns or
+    raises); second above 59 behaves like 59"""
     from oslo_utils import timeutils
     m = record_of(case)
-    if m['second'] < 59 or case['tzname'] not in ('absent', 'none', 'UTC', 'UTC+00:00'):
-        return None
+    before, shown = snapshot(m), repr(m)
     outs = []
-    for s in (m['second'], 59):
+    for i in range(max(2, case.get('times', 2))):
         try:
-            r = timeutils.unmarshall_time(dict(m, second=s))
-            outs.append((dt_fields(r), off_us(r)))
+            r = timeutils.unmarshall_time(m)
+            outs.append((dt_fields(r), off_us(r), getattr(r.tzinfo, 'key', None)))
         except Exception as e:
             outs.append(type(e).__name__)
-    if outs[0] != outs[1]:
-        return 'unmarshall_time(%r) -> %r but with second=59 -> %r' % (m, outs[0], outs[1])
+        if snapshot(m) != before:
+            return 'unmarshall_time changed the dict it was given: %s became %r (call %d)' % (shown, m, i + 1)
+        if outs[i] != outs[0]:
+            return 'call %d of unmarshall_time(%s) -> %r but the first call -> %r' % (i + 1, shown, outs[i], outs[0])
+    if m['second'] < 59 or case['tzname'] not in ('absent', 'none', 'UTC', 'UTC+00:00'):
+        return None
+    try:
+        r = timeutils.unmarshall_time(dict(m, second=59))
+        capped = (dt_fields(r), off_us(r), getattr(r.tzinfo, 'key', None))
+    except Exception as e:
+        capped = type(e).__name__
+    if outs[0] != capped:
+        return 'unmarshall_time(%s) -> %r but with second=59 -> %r' % (shown, outs[0], capped)
     return None
 
 
@@ -1197,18 +1385,33 @@ def _remember(case):
         _EXECUTED.append((keys, case))
 
 
+FRESH_BUDGET_S = float(__import__('os').environ.get('VERIF_C12_FRESH_BUDGET', '60'))   # wall-clock seconds per search() for confirming and shrinking in fresh interpreters
+_BUDGET = {'deadline': None}
+
+
+class BudgetUsedUp(Exception):
+    pass
+
+
+def budget_left():
+    return 10 ** 9 if _BUDGET['deadline'] is None else _BUDGET['deadline'] - time.time()
+
+
 def fresh_oracle(case):
-    """oracle(case) in a fresh interpreter: nothing left behind by earlier calls. Returns the reason or None."""
+    """oracle(case) in a fresh interpreter: nothing left behind by earlier calls. Returns the reason or None.
+    Raises BudgetUsedUp when the wall-clock budget of this search is spent."""
     import os
     import subprocess
     import sys
+    if budget_left() <= 0:
+        raise BudgetUsedUp()
     code = ('import sys, json; sys.path.insert(0, %r); import common; from props import C12; '
             'print("\\n@@" + json.dumps(C12.oracle(json.loads(sys.stdin.read()))))'
             % os.path.dirname(os.path.dirname(os.path.abspath(__file__))))
     env = dict(os.environ, PYTHONDONTWRITEBYTECODE='1')
     try:
         p = subprocess.run([sys.executable, '-c', code], input=common.json.dumps(case).encode(), env=env,
-                           stdout=subprocess.PIPE, stderr=subprocess.PIPE, timeout=600)
+                           stdout=subprocess.PIPE, stderr=subprocess.PIPE, timeout=max(2, min(60, budget_left())))
         line = [l for l in p.stdout.decode('utf-8', 'replace').splitlines() if l.startswith('@@')][-1]
         return common.json.loads(line[2:])
     except Exception:            # could not be established: treat as "does not reproduce"
@@ -1237,28 +1440,39 @@ def shrink_seq(case):
     if case['kind'] != 'seq' or len(case['ops']) < 2:
         return case
 
-    def still(sub):          # cheap in-process test first; a reduction is accepted only if it also fails fresh
-        c = dict(case, ops=sub)
-        return oracle(c) is not None and fresh_oracle(c) is not None
+    def fails_fresh(c):      # cheap in-process test first; a reduction is accepted only if it also fails fresh
+        if budget_left() <= 0 or oracle(c) is None:
+            return False
+        try:
+            return fresh_oracle(c) is not None
+        except BudgetUsedUp:
+            return False
+
+    def still(sub):
+        return fails_fresh(dict(case, ops=sub))
     small = dict(case, ops=common.shrink_list(case['ops'], still, max_steps=60))
     clocks = spec_clocks(small)
     for i in range(len(small['ops']) - 1, 0, -1):       # fold the prefix into the initial override
         cand = dict(small, init=clocks[i], ops=small['ops'][i:])
-        if fresh_oracle(cand) is not None:
+        if fails_fresh(cand):
             small = cand
             break
-    if small.get('fixture') and fresh_oracle(dict(small, fixture=False)) is not None:
+    if small.get('fixture') and fails_fresh(dict(small, fixture=False)):
         small['fixture'] = False
     return small
 
 
 def reproducible(case, n_before):
-    """A case (possibly preceded by the earlier cases it depends on) that fails in a fresh process, shrunk;
-    returns (case, reason, note)."""
-    why = fresh_oracle(case)
+    """A case (possibly preceded by the earlier cases it depends on) that fails in a fresh process, shrunk as far
+    as the wall-clock budget allows; returns (case, reason, note)."""
+    try:
+        why = fresh_oracle(case)
+    except BudgetUsedUp:
+        return case, None, 'not confirmed in a fresh interpreter and not shrunk: the wall-clock budget for that was used up'
     if why:
-        small = shrink_seq(case)
-        return small, fresh_oracle(small) or why, None
+        small = shrink_seq(case)        # every accepted reduction was confirmed fresh; stops when the budget is spent
+        note = None if budget_left() > 0 else 'shrinking stopped: wall-clock budget used up'
+        return small, (oracle(small) or why), note
     # fails here but not on its own: an earlier case of this process left something behind
     keys = dt_keys(case)
     earlier = [c for k, c in _EXECUTED[:n_before] if k & keys]
@@ -1267,17 +1481,33 @@ def reproducible(case, n_before):
         if c not in uniq:
             uniq.append(c)
     multi = {'kind': 'multi', 'cases': uniq[-40:] + [case]}
-    why = fresh_oracle(multi) if uniq else None
+    try:
+        why = fresh_oracle(multi) if uniq else None
+    except BudgetUsedUp:
+        why = None
     if why:
         def still(sub):
-            return fresh_oracle({'kind': 'multi', 'cases': sub + [case]}) is not None
+            try:
+                return fresh_oracle({'kind': 'multi', 'cases': sub + [case]}) is not None
+            except BudgetUsedUp:
+                return False
         pre = multi['cases'][:-1]
         if len(pre) > 1:
             pre = common.shrink_list(pre, still, max_steps=40)
         multi = {'kind': 'multi', 'cases': pre + [case]}
-        return multi, fresh_oracle(multi) or why, 'depends on an earlier call in the same process'
+        return multi, why, 'depends on an earlier call in the same process'
     return case, None, 'failed in the search process only; not reproduced in a fresh process, nor after the earlier ' \
                        'cases that used an equal datetime'
+
+
+def failure_kind(case, why):
+    """what failed, independent of how far the case was shrunk (used to report each kind once)"""
+    last = case['cases'][-1] if case['kind'] == 'multi' else case
+    if last['kind'] == 'seq':
+        m = re.search(r'call \d+ \((\w+)\(', why)
+        return 'seq/' + (m.group(1) if m else ' '.join(why.split()[:3]))
+    head = why.split(':')[0].split(' raised')[0].split('(')[0]
+    return last['kind'] + '/' + ' '.join(w for w in head.split() if not w.isdigit())[:50]
 
 
 def search(ctx, seeds, full=False):
@@ -1294,22 +1524,18 @@ def search(ctx, seeds, full=False):
                 todo.append({'kind': 'iso', 'dt': spec})
                 continue
         todo.append(gen_case(ctx))
+    _BUDGET['deadline'] = time.time() + FRESH_BUDGET_S
     for case in todo:
         ctx.evaluations += 1
         ctx.count('search/' + case['kind'])
         n_before = len(_EXECUTED)
         why = oracle(case)
         if why:
+            kind = failure_kind(case, why)
+            if kind in kinds and (len(fails) >= 3 or budget_left() <= 0):
+                continue                    # this kind is reported already: no confirmation / shrinking spent on it
             small, why2, note = reproducible(case, n_before)
             why = why2 or why
-            kind = why.split(':')[0].split(' raised')[0]
-            kind = ' '.join(w for w in kind.split() if not w.isdigit())[:60]
-            last = small['cases'][-1] if small['kind'] == 'multi' else small
-            if last['kind'] == 'seq':
-                bad = [op[0] for op in last['ops']]
-                kind = small['kind'] + '/' + '+'.join(sorted(set(bad)))
-            if kind in kinds and len(fails) >= 3:
-                continue
             kinds.add(kind)
             detail = {'kind': kind, 'what': why}
             if note:
@@ -1317,6 +1543,7 @@ def search(ctx, seeds, full=False):
             fails.append(Failure(small, detail))
             if len(fails) >= 6:
                 break
+    _BUDGET['deadline'] = None
     return fails
 
 
@@ -1350,7 +1577,7 @@ LEVEL_TEXT = ('Machine-checked proof (Lean 4), partial. Proved over a hand-writt
               'timedelta resolution (nearest microsecond, ties to even - proved properties of the conversion), for naive '
               'and aware t; the same against the exact rational s where its sub-microsecond part does not round up '
               '(*_exact_partial); unmarshall_time(marshall_now(d)) = d field for field for naive and UTC d, second > 59 read '
-              'as 59, microsecond kept. NOT proved, only exercised by the differential correspondence on every run: the '
+              'as 59, microsecond kept, re-marshalling the result gives the same record (remarshall_fixpoint). NOT proved, only exercised by the differential correspondence on every run: the '
               'calendar (fields <-> instant), the tz database (utcoffset, ZoneInfo), iso8601 parsing (parse_isotime o '
               'isoformat = id is a search oracle, not a theorem), calendar.timegm, binary64 rounding in '
               'timedelta(seconds=float) and utcnow_ts(microsecond=True).')
